@@ -427,3 +427,98 @@ pub fn run_schedule(programs: &[Vec<Call>], prefix: &[usize], order: Option<Vec<
     "diverged": s.diverged, "preemptions": s.preemptions,
   })
 }
+
+// ---------------------------------------------------------------------------------------------
+// Mutual-exclusion probe: the scheduler above MODELS the blocking of `Once` (a thread entering
+// call_once while another is inside the closure is not scheduled).  The probe checks that
+// assumption on the real code: thread 1 is held inside the constructor (P_NEW_BEGIN), then a
+// free-running thread 2 calls the same get_or_create: it must NOT complete while thread 1 is
+// held (and afterwards: one construction, same object).
+// ---------------------------------------------------------------------------------------------
+
+struct Probe {
+  held: bool,
+  release: bool,
+}
+static PROBE: Mutex<Probe> = Mutex::new(Probe { held: false, release: false });
+static PROBE_CV: Condvar = Condvar::new();
+
+fn probe_hook(_table: u8, point: u8, _depth: u8) {
+  if TID.with(|t| t.get()) != Some(0) || point != vh::P_NEW_BEGIN {
+    return;
+  }
+  let mut g = PROBE.lock().unwrap();
+  if g.release {
+    return;
+  }
+  g.held = true;
+  PROBE_CV.notify_all();
+  while !g.release {
+    g = PROBE_CV.wait(g).unwrap();
+  }
+}
+
+pub fn run_probe(kind: u8, depth: u8) -> Value {
+  {
+    let mut g = PROBE.lock().unwrap();
+    g.held = false;
+    g.release = false;
+  }
+  vh::set_hook(probe_hook);
+  let call = Call { kind, depth };
+  let c1 = call.clone();
+  let t1 = std::thread::spawn(move || {
+    TID.with(|c| c.set(Some(0)));
+    std::panic::catch_unwind(|| do_call(&c1)).map_err(|_| "panic".to_string())
+  });
+  // wait until thread 1 is held inside the constructor
+  let start = Instant::now();
+  let mut held = false;
+  {
+    let mut g = PROBE.lock().unwrap();
+    while !g.held && start.elapsed() < Duration::from_secs(5) {
+      let (ng, _) = PROBE_CV.wait_timeout(g, Duration::from_millis(50)).unwrap();
+      g = ng;
+    }
+    held = g.held || held;
+  }
+  let table = if kind == 0 { 0u8 } else { 1u8 };
+  if !held {
+    // the constructor hook was never reached: nothing to probe (reported, not a verdict)
+    {
+      let mut g = PROBE.lock().unwrap();
+      g.release = true;
+      PROBE_CV.notify_all();
+    }
+    let r1 = t1.join();
+    return json!({"probe": "constructor-hook-not-reached", "t1": format!("{:?}", r1.map(|x| x.map(|v| v.to_string())))});
+  }
+  let c2 = call.clone();
+  let done2 = std::sync::Arc::new(std::sync::atomic::AtomicBool::new(false));
+  let d2 = done2.clone();
+  let t2 = std::thread::spawn(move || {
+    let r = std::panic::catch_unwind(|| do_call(&c2)).map_err(|_| "panic".to_string());
+    d2.store(true, std::sync::atomic::Ordering::SeqCst);
+    r
+  });
+  // thread 2 must still be blocked after a generous delay
+  let wait_start = Instant::now();
+  while wait_start.elapsed() < Duration::from_millis(250) && !done2.load(std::sync::atomic::Ordering::SeqCst) {
+    std::thread::sleep(Duration::from_millis(5));
+  }
+  let got_through = done2.load(std::sync::atomic::Ordering::SeqCst);
+  let count_while_held = vh::new_count(table, depth);
+  {
+    let mut g = PROBE.lock().unwrap();
+    g.release = true;
+    PROBE_CV.notify_all();
+  }
+  let r1 = t1.join().unwrap_or(Err("panic".to_string()));
+  let r2 = t2.join().unwrap_or(Err("panic".to_string()));
+  json!({
+    "probe": "done", "second_thread_completed_while_first_was_constructing": got_through,
+    "constructions_while_held": count_while_held, "constructions": vh::new_count(table, depth),
+    "t1": r1.clone().map(|v| v.to_string()), "t2": r2.clone().map(|v| v.to_string()),
+    "same_object": r1.is_ok() && r1 == r2,
+  })
+}
